@@ -98,12 +98,15 @@ def _abstract_ops(log, role, new):
 
 
 def _traced_child(entry, req, out, plan, logfile, root):
-    """Run the edit in a forked child under tracing / fault plan.  Returns (status, log)."""
+    """Run the edit in a forked child under tracing / fault plan.  Returns (status, log).
+    An edit is not hostile: besides the sandbox the system temporary directory may be written."""
+    import tempfile
+    roots = (list(root) if isinstance(root, (list, tuple)) else [root]) + [tempfile.gettempdir()]
     pid = os.fork()
     if pid == 0:
         code = 0
         try:
-            fstrace.start([root], plan=plan, logfile=logfile)
+            fstrace.start(roots, plan=plan, logfile=logfile)
             try:
                 _do_edit(entry, req, out)
             except SystemExit:
@@ -125,9 +128,24 @@ def _traced_child(entry, req, out, plan, logfile, root):
     return status, log
 
 
+def _other_fs_dir():
+    """A scratch directory on a filesystem different from the system temp directory (tmpfs), or
+    None: there a temporary file created in the system temp dir cannot be renamed into place."""
+    import tempfile
+    cand = "/dev/shm"
+    try:
+        if os.path.isdir(cand) and os.access(cand, os.W_OK) and \
+                os.stat(cand).st_dev != os.stat(tempfile.gettempdir()).st_dev:
+            return tempfile.mkdtemp(prefix="vh-otherfs-%d-" % os.getpid(), dir=cand)
+    except OSError:
+        pass
+    return None
+
+
 def run_editfault(case):
     """One edit request: reference run + one run per (operation, fault kind)."""
     sbx = new_sandbox("ef")
+    other = _other_fs_dir() if case.get("other_fs") else None
     recs = []
     try:
         tree = case["tree"]
@@ -152,11 +170,12 @@ def run_editfault(case):
 
         def one(plan):
             run[0] += 1
-            d = os.path.join(sbx, "r%d" % run[0])
+            d = os.path.join(other or sbx, "r%d" % run[0])
             os.makedirs(d)
             out = os.path.join(d, "m.torrent")
             shutil.copyfile(base, out)
-            status, log = _traced_child(entry, req, out, plan, os.path.join(sbx, "log%d.json" % run[0]), sbx)
+            status, log = _traced_child(entry, req, out, plan, os.path.join(sbx, "log%d.json" % run[0]),
+                                        [sbx] + ([other] if other else []))
             return status, log, out
 
         status, log, out = one(None)
@@ -168,7 +187,7 @@ def run_editfault(case):
         ref_ops = _abstract_ops(log["log"], role, new)
         # label what each write wrote: re-run once more un-faulted is unnecessary - sizes identify it
         for o in ref_ops:
-            if o["kind"] == "write":
+            if o["kind"] in ("write", "dwrite"):
                 o["d"] = "New" if new is not None and o["extra"] == len(new) else "Other"
         rid = case["id"] * 1000
         recs.append({"id": rid, "op": "editfault", "clauses": case["clauses"], "ops": ref_ops,
@@ -188,7 +207,7 @@ def run_editfault(case):
                 role = _role_fn(out)
                 ops = _abstract_ops(log["log"], role, new)
                 for o in ops:
-                    if o["kind"] == "write":
+                    if o["kind"] in ("write", "dwrite"):
                         o["d"] = "New" if new is not None and o["extra"] == len(new) else "Other"
                 recs.append({"id": rid + k, "op": "editfault", "clauses": case["clauses"], "ops": ops,
                              "fault": {"at": min(at, len(ops)) if ops else 0, "kind": kind, "k": 1},
@@ -200,6 +219,8 @@ def run_editfault(case):
         return recs
     finally:
         rm(sbx)
+        if other:
+            rm(other)
 
 
 # the follow-up edit clears every optional field: its output is the shortest possible
@@ -214,11 +235,12 @@ def _followup(case, rid, out, sbx, run):
         pre = fh.read() if os.path.isfile(out) else b""
     # expected result: the same follow-up edit applied to a clean copy of what is there now
     run[0] += 1
-    clean = os.path.join(sbx, "r%d" % run[0])
+    clean = os.path.join(os.path.dirname(os.path.dirname(out)), "r%d" % run[0])
     os.makedirs(clean)
     cout = os.path.join(clean, "m.torrent")
     shutil.copyfile(out, cout)
-    st0, _ = _traced_child("lib", FOLLOW_REQ, cout, None, os.path.join(sbx, "logc%d.json" % run[0]), sbx)
+    st0, _ = _traced_child("lib", FOLLOW_REQ, cout, None, os.path.join(sbx, "logc%d.json" % run[0]),
+                           [sbx, os.path.dirname(os.path.dirname(out))])
     expected = None
     if st0 == "ok":
         with open(cout, "rb") as fh:
@@ -226,7 +248,8 @@ def _followup(case, rid, out, sbx, run):
     leftovers = sorted(f for f in os.listdir(d) if f != "m.torrent")
     sizes = {f: os.path.getsize(os.path.join(d, f)) for f in leftovers}
     extra = {os.path.join(d, f): "T%d" % (n + 1) for n, f in enumerate(leftovers)}
-    status, log = _traced_child("lib", FOLLOW_REQ, out, None, os.path.join(sbx, "logf%d.json" % run[0]), sbx)
+    status, log = _traced_child("lib", FOLLOW_REQ, out, None, os.path.join(sbx, "logf%d.json" % run[0]),
+                                [sbx, os.path.dirname(os.path.dirname(out))])
     role0 = _role_fn(out, extra)
     nt = [len(leftovers)]
 
@@ -239,7 +262,7 @@ def _followup(case, rid, out, sbx, run):
         return r
     ops = _abstract_ops(log["log"], role, expected)
     for o in ops:
-        if o["kind"] == "write":
+        if o["kind"] in ("write", "dwrite"):
             o["d"] = "New" if expected is not None and o["extra"] == len(expected) else "Other"
     return {"id": rid, "op": "editfault", "clauses": [c for c in case["clauses"]], "ops": ops,
             "fault": {"at": 0, "kind": "followup", "k": 0}, "status": status,
